@@ -228,7 +228,9 @@ fn run_real(inst: &Inst, force: bool, q: i64) -> (Option<Vec<usize>>, Log) {
 struct C04;
 
 fn is_boxlike(it: &It) -> bool {
-    matches!(it, It::Box(_) | It::Kern(false, _))
+    // what a discretionary may replace: boxes and kerns (an explicit kern in the replaced
+    // range is not a breakpoint, TeX.2021.869)
+    matches!(it, It::Box(_) | It::Kern(_, _))
 }
 
 /// Keep `replace_count`s valid after items were removed.
@@ -269,6 +271,12 @@ impl C04 {
                     let post = if rng.chance(1, 4) { vec![u(*rng.pick(&[1, 3]))] } else { vec![] };
                     let r = if rng.chance(1, 4) { 1 } else { 0 };
                     items.push(It::Disc(pre, post, r));
+                    if r == 1 && rng.chance(1, 6) {
+                        // replaced explicit kern directly before the inter-word glue
+                        items.push(It::Kern(true, u(1)));
+                        items.push(It::Glue(sp[0], u(2), 0, u(1)));
+                        items.push(It::Box(u(6)));
+                    }
                 } else if bi + 1 < n_boxes && rng.chance(1, 6) {
                     items.push(It::Kern(false, u(*rng.pick(&[-1, 1]))));
                 }
